@@ -26,6 +26,9 @@ type multiCase struct {
 	FileTypes []int              `json:"file_types"`
 	Streams   []*fitmodel.Stream `json:"streams"`
 	Text      []string           `json:"text,omitempty"`
+	// CutAfter[i] > 0: stream i is decoded a second time, cut short inside
+	// the record that follows its first CutAfter[i] records
+	CutAfter []int `json:"cut_after_records,omitempty"`
 }
 
 // Emulation of the defective accumulation (findings D11 and K1), used only
@@ -50,9 +53,15 @@ type decoded struct {
 }
 
 func decodeTracked(s *fitmodel.Stream, ft int) (*decoded, any) {
+	return decodeTrackedBytes(s, s.Bytes(), ft)
+}
+
+// decodeTrackedBytes decodes data and builds the expectation from the model
+// stream s (for a truncated input: the records complete before the cut).
+func decodeTrackedBytes(s *fitmodel.Stream, data []byte, ft int) (*decoded, any) {
 	d := &decoded{emu: map[*fitmodel.IMsg]uint32{}}
 	ip := fitmodel.Interpret(s, prof.Table())
-	p := oracle.Catch(func() { d.f, d.err = fit.Decode(bytes.NewReader(s.Bytes())) })
+	p := oracle.Catch(func() { d.f, d.err = fit.Decode(bytes.NewReader(data)) })
 	if !hx.Open("K1") {
 		emuDistance = fitmodel.Acc{Bits: 12} // accumulators are per file once K1 is repaired
 	}
@@ -309,6 +318,33 @@ func checkMulti(rec *hx.Recorder, c *multiCase, labels map[string]int) (string, 
 		if sig, msg, ok := judge(rec, d, s.String(), labels); !ok {
 			return sig, fmt.Sprintf("file %d of %d decoded in this process: %s", i+1, len(c.Streams), msg), false
 		}
+		if i < len(c.CutAfter) && c.CutAfter[i] >= 2 && c.CutAfter[i] < len(s.Recs) {
+			// the same input cut short inside the record after CutAfter[i]
+			// records: Decode fails and hands back the File built so far,
+			// whose messages went through the same component rules
+			lay := s.Layout()
+			n := c.CutAfter[i]
+			ps := *s
+			ps.Recs = s.Recs[:n]
+			k := lay.RecEnd[n-1]
+			if lay.RecEnd[n]-k > 1 {
+				k++ // one byte into the next record
+			}
+			dc, p := decodeTrackedBytes(&ps, lay.Bytes[:k], c.FileTypes[i])
+			if p != nil {
+				return "", fmt.Sprintf("Decode of the input cut after %d bytes panicked: %v", k, p), false
+			}
+			if dc.err == nil {
+				return "", fmt.Sprintf("Decode of the input cut after %d of %d bytes returned no error", k, len(lay.Bytes)), false
+			}
+			if dc.f != nil {
+				dc.err = nil // judged on the partial File
+				labels["partial File of a cut input"]++
+				if sig, msg, ok := judge(rec, dc, ps.String(), labels); !ok {
+					return sig, fmt.Sprintf("file %d of %d cut after %d records (partial File returned with the error): %s", i+1, len(c.Streams), n, msg), false
+				}
+			}
+		}
 	}
 	return "", "", true
 }
@@ -496,6 +532,11 @@ func TestC18(t *testing.T) {
 				c.Streams = append(c.Streams, s)
 				c.FileTypes = append(c.FileTypes, ft)
 				c.Text = append(c.Text, s.String())
+				cut := 0
+				if len(s.Recs) > 3 && d.Int(0, 2, "cut") == 0 {
+					cut = d.Int(3, len(s.Recs)-1, "cutafter")
+				}
+				c.CutAfter = append(c.CutAfter, cut)
 			}
 			labels := map[string]int{}
 			rec.Eval("histories", 1)
